@@ -15,6 +15,11 @@ def main():
     verif = os.path.dirname(os.path.dirname(os.path.abspath(__file__)))
     sys.path.insert(0, os.path.join(repo, "src"))
     sys.path.insert(0, verif)
+    # The editable install registers the `cr` namespace package with /repo/src/cr at
+    # interpreter start-up; point it at the tree under test (a scratch copy with --repo).
+    import cr
+
+    cr.__path__ = [os.path.join(os.path.realpath(repo), "src", "cr")]
     out = os.fdopen(os.dup(1), "w", buffering=1)
     # anything the library or numpy prints must not corrupt the protocol stream
     os.dup2(2, 1)
